@@ -78,6 +78,14 @@ class AsgGen:
         else:
             target = ["bin", "+", ["ref", "a"], ["num", "1", 0]]
         rhs = self.expr(d)
+        if target[0] == "ref" and target[1] in FN_TARGETS and r.random() < 0.6:
+            # assigning exactly what the function-bound target currently yields must still rebind it as a variable
+            cur = {"rate": (12, 0), "quota": (25, 1)}[target[1]]
+            op, rhs = r.choice([("=", gen.num_lit(*cur)), ("*=", gen.num_lit(1, 0)), ("+=", gen.num_lit(0, 0)), ("-=", gen.num_lit(0, 1)), ("=", gen.num_lit(cur[0] * 10, cur[1] + 1))])
+        if target[0] == "list" and r.random() < 0.7:
+            # a list of names is not a name, whatever is assigned to it
+            target = ["list", [["ref", v] for v in r.sample(VARS, r.randint(1, 3))]]
+            rhs = ["list", [gen.num_lit(*r.choice(gen.NUM_SMALL)) for _ in target[1]]]
         if op in ("<<=", ">>=", "&=", "|=", "^=") and r.random() < 0.8:
             rhs = gen.num_lit(r.choice([0, 1, 2, 3, 5, 63, 64, -1]), 0)
         if target[0] == "ref" and r.random() < 0.15:
